@@ -5,6 +5,7 @@ package harness
 
 import (
 	"bytes"
+	"math/big"
 	"sort"
 	"strings"
 	"testing"
@@ -189,8 +190,30 @@ var c03Templates = []func(g *Gen, run func(Op) bool){
 var c04Weights = baseWeights.with(Weights{"freeze": 12, "unfreeze": 6, "wipe": 4, "pause": 9, "unpause": 6, "transfer": 12, "nfttransfer": 9, "multi": 12, "mint": 5, "localburn": 4,
 	"burn": 4, "create": 8, "addq": 4, "nftburn": 4, "adduri": 4, "update": 4, "deliver": 18, "issue": 8, "setrole": 9, "gas": 0, "epoch": 0, "skv": 0})
 
+// c04RoundTrip: freeze;unfreeze of one (account, token) or pause;unpause of one token on one shard, by the system contract.
+func c04RoundTrip(g *Gen) []Op {
+	if g.pick("rt-kind", 2) == 0 {
+		rcv := g.addr("rt-rcv")
+		token := g.tokenOfKind("rt-token", "F", "F", "SFT")
+		if hs := g.holdings("F"); len(hs) > 0 && g.pick("rt-holder", 3) > 0 {
+			h := hs[g.pick("rt-h", len(hs))]
+			rcv, token = h.addr, h.token
+		}
+		if g.e.M.acc(g.shard(rcv), rcv).entry(string(token)).Frozen {
+			return nil // already frozen: unfreezing would change behaviour legitimately
+		}
+		return []Op{callOp(g.sysCall(g.shard(rcv), vmcommon.BuiltInFunctionESDTFreeze, rcv, token)), callOp(g.sysCall(g.shard(rcv), vmcommon.BuiltInFunctionESDTUnFreeze, rcv, token))}
+	}
+	sh := g.pick("rt-shard", g.e.M.NShards)
+	token := g.tokenOfKind("rt-ptoken", "F", "SFT", "NFT")
+	if g.e.M.paused(sh, token) {
+		return nil
+	}
+	return []Op{callOp(g.sysCall(sh, vmcommon.BuiltInFunctionESDTPause, vmcommon.SystemAccountAddress, token)), callOp(g.sysCall(sh, vmcommon.BuiltInFunctionESDTUnPause, vmcommon.SystemAccountAddress, token))}
+}
+
 func TestC04(t *testing.T) {
-	runHistories(t, historyCfg{prop: "C04", weights: c04Weights, minSteps: 12, maxSteps: 70, nontrivial: func(rec *CallRecord, g *Gen) (string, bool) {
+	runHistories(t, historyCfg{prop: "C04", weights: c04Weights, minSteps: 12, maxSteps: 70, shadowOps: c04RoundTrip, shadowP: 3, nontrivial: func(rec *CallRecord, g *Gen) (string, bool) {
 		if sig, ok := mustFailFor(rec, "C04"); ok {
 			return sprintf("attempt-while-flagged|%s|%s|%s|refund=%v", rec.Call.Fn, sig, outcomeOf(rec), rec.Call.RetErr), true
 		}
@@ -267,8 +290,72 @@ func gasClass(rec *CallRecord) string {
 	return "above"
 }
 
+// c06Sweep re-executes every distinct successful scenario on clones over the whole gas grid of the statement.
+func c06Sweep(seen map[string]bool) func(e *Engine, st *Stats) {
+	return func(e *Engine, st *Stats) {
+		e.PreExec = func(c *Call) []Clause {
+			v := e.M.Judge(c)
+			if !v.Known {
+				return nil
+			}
+			key := sprintf("%s/%s/nargs=%d/type=%d/msg=%v/size=%d", c.Fn, v.Side, len(c.Args), c.CallType, c.MsgID != 0, inputSize(c)/32)
+			if seen != nil {
+				if seen[key] {
+					return nil
+				}
+			}
+			probe := *c
+			probe.Gas = ampleGas
+			if r := e.W.Clone().Exec(&probe); !r.OK() {
+				return nil
+			}
+			if seen != nil {
+				seen[key] = true
+			}
+			st.AddExtra("gas_sweep_scenarios", 1)
+			charge := uint64(0)
+			if v.Charge != nil {
+				charge = *v.Charge
+				for _, a := range v.ChargeAlt {
+					if a < charge {
+						charge = a
+					}
+				}
+			}
+			grid := []uint64{0, 1, charge - 1, charge, charge + 1, 2 * charge, 1 << 32, 1 << 63, ^uint64(0), ^uint64(0) - 1}
+			var out []Clause
+			for _, gas := range grid {
+				if charge == 0 && gas == ^uint64(0) && v.Charge != nil {
+					continue
+				}
+				cc := *c
+				cc.Gas = gas
+				r := e.W.Clone().Exec(&cc)
+				st.Eval(1)
+				if !r.OK() {
+					st.Label("sweep/rejected")
+					continue
+				}
+				st.Label("sweep/accepted")
+				st.NT(sprintf("sweep|%s|gas-vs-charge=%s", key, gasClass(&CallRecord{Call: &cc, V: v})))
+				provided := new(big.Int).SetUint64(gas)
+				spent := new(big.Int).Add(new(big.Int).SetUint64(r.Out.GasRemaining), sumGasLimits(r.Out))
+				if spent.Cmp(provided) > 0 {
+					out = append(out, clause([]string{"C06"}, c.Fn+"/gas-created", "%s: GasRemaining %d + forwarded %v exceeds GasProvided %d", cc.String(), r.Out.GasRemaining, sumGasLimits(r.Out), gas))
+					continue
+				}
+				if v.Charge != nil && gas < charge && spent.Sign() != 0 {
+					out = append(out, clause([]string{"C06"}, c.Fn+"/undercharged", "%s succeeded with GasProvided %d below its charge %d and kept/forwarded %v of it", cc.String(), gas, charge, spent))
+				}
+			}
+			return out
+		}
+	}
+}
+
 func TestC06(t *testing.T) {
-	runHistories(t, historyCfg{prop: "C06", weights: c06Weights, minSteps: 10, maxSteps: 50, gasBias: "tight", nontrivial: func(rec *CallRecord, g *Gen) (string, bool) {
+	seen := map[string]bool{}
+	runHistories(t, historyCfg{prop: "C06", weights: c06Weights, minSteps: 10, maxSteps: 50, gasBias: "tight", setup: c06Sweep(seen), nontrivial: func(rec *CallRecord, g *Gen) (string, bool) {
 		gc := gasClass(rec)
 		if rec.Res.OK() && rec.V.Charge != nil && rec.Call.Gas <= *rec.V.Charge+1 {
 			return sprintf("tight-success|%s|%s|%s|%s", rec.Call.Fn, rec.V.Side, gc, shapeKey(g)), true
@@ -582,7 +669,8 @@ func TestC16(t *testing.T) {
 }
 
 func init() {
-	for _, p := range []string{"C02", "C03", "C04", "C05", "C06", "C07", "C08", "C09", "C10", "C11", "C15", "C16"} {
+	for _, p := range []string{"C02", "C03", "C04", "C05", "C07", "C08", "C09", "C10", "C11", "C15", "C16"} {
 		replayers[p] = replayHistory([]string{p}, nil)
 	}
+	replayers["C06"] = replayHistory([]string{"C06"}, c06Sweep(nil))
 }
